@@ -3,7 +3,7 @@
     [entry_c09sh] : programs of the action grammar (shell level).
     Both print the scope stack (bottom first, bindings sorted by name) after every step. *)
 From Coq Require Import String.
-From BV Require Import Base.Prelude Base.Codec Shell.Vars Shell.Env Shell.Prog.
+From BV Require Import Base.Prelude Base.Codec Scope.Vars Scope.Env Scope.Prog.
 
 (** ** Printing *)
 Fixpoint ins_sorted {A} (n : str) (a : A) (l : list (str * A)) : list (str * A) :=
